@@ -127,6 +127,25 @@ def gen_schedule(rng, car):
     return t
 
 
+def real_rows_vs_alone(chk, emf, kw, tout):
+    """real solver: each row of a schedule against the same age requested alone, at integrator accuracy"""
+    full = emf.EvolvedMF.from_powerlaw(tout=tout, **kw)
+    for i, t in enumerate(tout):
+        one = emf.EvolvedMF.from_powerlaw(tout=[t], **kw)
+        chk.count("real-solver row comparisons")
+        for nm, a, b in (("Ns", full.Ns[i], one.Ns[0]), ("Mr.BH", full.Mr.BH[i], one.Mr.BH[0]), ("Mr.WD", full.Mr.WD[i], one.Mr.WD[0])):
+            # scale: the row itself, but not less than a thousandth of the initial population (a nearly dissolved cluster is
+            # known only to the integrator's absolute accuracy)
+            sc = max(float(np.max(np.abs(b))), 1e-3 * kw["N0"])
+            # (the right-hand side jumps at the core-collapse time, which is not an integration grid point: dopri5 crosses it with
+            #  step rejections and the schedule-to-schedule scatter grows to ~1e-3; measured on the unchanged tree)
+            #  plus the absolute accuracy of the integration, a few 1e-5 of the initial population, which is all that is known
+            #  about a cluster that has lost 99 % of its stars)
+            if np.max(np.abs(a - b)) > (5e-3 if kw.get("tcc") else 2e-3) * sc + 3e-5 * kw["N0"]:
+                chk.fail("the row for age T is the same (to integrator accuracy) alone or within a schedule [real solver]",
+                         dict(kw, tout=tout), dict(row=i, age=t, array=nm, max_abs_diff=float(np.max(np.abs(a - b))), scale=sc))
+
+
 def run(chk):
     rng = chk.rng
     emf, masses, *_ = U.mods()
@@ -233,21 +252,13 @@ def run(chk):
             kw.update(esc_rate=-20.0, tcc=float(rng.choice([5800.0, 2500.0, 7000.0])), esc_norm=rng.choice(["N", "M"]))
             # (first run, always: a requested age 200 Myr after the core-collapse time, i.e. INSIDE the integration interval that contains it)
             tout = [kw["tcc"] + 200.0, 12000.0] if _ == 0 else tout
-        full = emf.EvolvedMF.from_powerlaw(tout=tout, **kw)
-        for i, t in enumerate(tout):
-            one = emf.EvolvedMF.from_powerlaw(tout=[t], **kw)
-            chk.count("real-solver row comparisons")
-            for nm, a, b in (("Ns", full.Ns[i], one.Ns[0]), ("Mr.BH", full.Mr.BH[i], one.Mr.BH[0]), ("Mr.WD", full.Mr.WD[i], one.Mr.WD[0])):
-                # scale: the row itself, but not less than a thousandth of the initial population (a nearly dissolved cluster is
-                # known only to the integrator's absolute accuracy)
-                sc = max(float(np.max(np.abs(b))), 1e-3 * kw["N0"])
-                # (the right-hand side jumps at the core-collapse time, which is not an integration grid point: dopri5 crosses it with
-                #  step rejections and the schedule-to-schedule scatter grows to ~1e-3; measured on the unchanged tree)
-                #  plus the absolute accuracy of the integration, a few 1e-5 of the initial population, which is all that is known
-                #  about a cluster that has lost 99 % of its stars)
-                if np.max(np.abs(a - b)) > (5e-3 if kw.get("tcc") else 2e-3) * sc + 3e-5 * kw["N0"]:
-                    chk.fail("the row for age T is the same (to integrator accuracy) alone or within a schedule [real solver]",
-                             dict(kw, tout=tout), dict(row=i, age=t, array=nm, max_abs_diff=float(np.max(np.abs(a - b))), scale=sc))
+        real_rows_vs_alone(chk, emf, kw, tout)
+    # fixed coverage points (nothing drawn from the generator): every core-collapse time of the list above, both normalisations of the escape rate,
+    # with a requested age 200 Myr after the core-collapse time and one exactly at it - the collapse happens at tcc whatever else is requested
+    for tcc_, norm_, first_ in ((5800.0, "N", 6000.0), (5800.0, "M", 5800.0), (2500.0, "N", 2700.0), (2500.0, "M", 2700.0), (7000.0, "M", 7200.0),
+                                (7000.0, "N", 7000.0), (4000.0, "N", 4200.0)):
+        real_rows_vs_alone(chk, emf, dict(m_breaks=[0.1, 0.5, 1.0, 100], a_slopes=[-0.5, -1.3, -2.5], nbins=[5, 5, 20], FeH=-1.0, esc_rate=-20.0, N0=5e5,
+                                          BH_ret_dyn=0.5, tcc=tcc_, esc_norm=norm_), [first_, 12000.0])
     # natal kicks with an age INSIDE the BH-formation epoch requested first (the BH bins are still filling, their mean masses still moving): the
     # later row must be what that age gives alone
     for km_, extra_ in (("maxwellian", dict(vesc=90)), ("sigmoid", dict(kick_slope=0.4, kick_scale=18.0))):
